@@ -58,6 +58,10 @@ class Mat:
             return rows[c]
         return self.rows[key]
 
+    def __matmul__(self, other):
+        a, b = self.rows, other.rows
+        return Mat([[sum(a[i][k] * b[k][j] for k in range(2)) for j in range(2)] for i in range(2)])
+
     def __repr__(self):
         return "Mat(%r)" % (self.rows,)
 
